@@ -19,10 +19,12 @@ fn modern_only(bytes: &[u8]) -> bool {
     (1..256).all(|i| !t[i] || MODERN.contains(&(i as u8))) && !t[0]
 }
 
-pub fn check_input(rep: &Report, bytes: &[u8], family: &str) {
+pub fn check_input(rep: &Report, bytes: &[u8], family: &str) { check_input_opt(rep, bytes, family, true) }
+
+pub fn check_input_opt(rep: &Report, bytes: &[u8], family: &str, skip_large_counts: bool) {
     // inputs whose declared counts exceed the input are C02's business (pre-allocation); both decoders
     // share that behaviour and the process-level outcome is observed there under a supervisor
-    if matches!(ref_decode(bytes), Err(RefErr::CountTooBig)) {
+    if skip_large_counts && matches!(ref_decode(bytes), Err(RefErr::CountTooBig)) {
         rep.add("skipped_count_exceeds_input", 1);
         return;
     }
@@ -48,6 +50,14 @@ pub fn check_input(rep: &Report, bytes: &[u8], family: &str) {
                 if scan_tags(bytes)[89] { return; } // cannot happen: owned rejects NEW_PORT_EXT too
                 rep.violation("zero-copy decoder rejects a modern-tag input the owned decoder accepts", json!({"family": family, "bytes": hex(bytes), "error": e.to_string()}));
             }
+            // an input the format does not permit (the independent reader refuses it too), written with modern tags only,
+            // on which the two decoders give different verdicts
+            if !skip_large_counts && ref_decode(bytes).is_err() {
+                let t = scan_tags(bytes);
+                if (1..256).all(|i| !t[i] || MODERN.contains(&(i as u8))) && !t[0] {
+                    rep.violation("owned decoder accepts a malformed input that the zero-copy decoder refuses", json!({"family": family, "bytes": hex(bytes), "zero_copy_error": e.to_string()}));
+                }
+            }
             rep.add("borrowed_err_owned_ok", 1);
         }
         (Err(e), Err(_)) => {
@@ -57,6 +67,29 @@ pub fn check_input(rep: &Report, bytes: &[u8], family: &str) {
             rep.add("both_err", 1);
         }
     }
+}
+
+/// References that announce more id words than follow, cut at a word boundary, alone and with a well-formed neighbour behind
+/// them (both decoders must agree on refusing them; the announced counts are at most 5, so nothing is pre-allocated).
+pub fn short_identifiers() -> Vec<Vec<u8>> {
+    let mut out: Vec<Vec<u8>> = vec![];
+    {
+        for tag in [90u8, 114] {
+            for announced in 1..=5u16 {
+                for present in 0..announced {
+                    let mut r = vec![tag]; r.extend_from_slice(&announced.to_be_bytes()); r.extend_from_slice(&[119, 3, b'n', b'@', b'h']);
+                    if tag == 90 { r.extend_from_slice(&[0, 0, 0, 1]); } else { r.push(1); }
+                    for w in 0..present { r.extend_from_slice(&[0, 0, 0, w as u8 + 1]); }
+                    let mut alone = vec![131u8]; alone.extend_from_slice(&r); out.push(alone);
+                    for post in [&[97u8, 5][..], &[97, 5, 97, 6][..], &[98, 0, 0, 0, 5][..], &[106][..], &[109, 0, 0, 0, 0][..]] {
+                        let mut t = vec![131u8, 104, 2]; t.extend_from_slice(&r); t.extend_from_slice(post); out.push(t);
+                        let mut l = vec![131u8, 108, 0, 0, 0, 1]; l.extend_from_slice(&r); l.extend_from_slice(post); out.push(l);
+                    }
+                }
+            }
+        }
+    }
+    out
 }
 
 pub fn corpus(thorough: bool) -> Vec<Vec<u8>> {
@@ -101,6 +134,7 @@ pub fn corpus(thorough: bool) -> Vec<Vec<u8>> {
             }
         }
     }
+    out.extend(short_identifiers());
     // lists [1|T] and [1,2|T] whose tail T is any small term, in particular the empty ones that are not NIL
     {
         let mut tails: Vec<Vec<u8>> = vec![
@@ -259,6 +293,8 @@ pub fn run(rep: &Report) -> serde_json::Value {
     rep.set_extra("history_independence", hist);
     let thorough = rep.thorough();
     let corp = corpus(thorough);
+    // identifiers announcing up to five words more than the input holds: compared without the large-count exemption
+    for b in short_identifiers() { check_input_opt(rep, &b, "short-identifiers", false); }
     let distinct: Mutex<HashSet<u64>> = Mutex::new(HashSet::new());
     let note = |b: &[u8]| {
         use std::hash::{Hash, Hasher};
